@@ -83,14 +83,14 @@ func c12ExecutorReuse(r *rand.Rand, idx int) Case {
 			fail = append(fail, fmt.Sprintf("the caller set mode=on between two runs of one executor; the second run's conditions saw something else: %v", fin2))
 		}
 		// message text is rendered wherever its actions stand: also behind braces that belong to the plain text
-		brace, e7 := specFromYaml("steps:\n  l:\n    order: 1\n    log:\n      message: 'payload={\"user\":{\"id\":7}} status={{ .status }}'\n  a:\n    order: 2\n    abort:\n      message: 'rejected {\"limits\":{\"cpu\":2}} reason={{ .reason }}'\n")
+		brace, e7 := specFromYaml("steps:\n  l:\n    order: 1\n    log:\n      message: 'payload={\"user\":{\"id\":7}} status={{ .status }}'\n  a:\n    order: 2\n    abort:\n      message: 'rejected {\"limits\":{\"cpu\":2}} at 93% of quota, reason={{ .reason }}'\n")
 		if e7 != nil {
 			fail = append(fail, fmt.Sprint("probe tree does not decode: ", e7))
 			return
 		}
 		lst := &evListener{}
 		errB := pipeline.New(pipeline.WithListener(lst), pipeline.WithData(anyToContainer(map[string]any{"status": "ok", "reason": "quota"}))).Execute(brace)
-		if errB == nil || !strings.Contains(errB.Error(), "reason=quota") || strings.Contains(errB.Error(), "{{") {
+		if errB == nil || !strings.Contains(errB.Error(), "at 93% of quota, reason=quota") || strings.Contains(errB.Error(), "{{") {
 			fail = append(fail, fmt.Sprintf("abort message with braces in its plain text: the run returned %v", errB))
 		}
 		sawLog := false
